@@ -20,6 +20,9 @@
  *               K<k>        timer_cancel(number of set calls so far - k)      X<id>  timer_cancel(id)
  *                           (P mode: the calling worker's last returned id - k)
  *     ops    s<th>:R<ms>:<cb> | s<th>:A<sec>.<nsec>:<cb> | c<th>:K<k> | c<th>:X<id> | t:<sec>.<nsec>
+ *            x<th>:<sec>.<nsec>:K<k>|X<id>   the clock is put at that reading and worker th makes the cancel in the
+ *                     window between the timer thread's timed wait timing out and its re-taking the mutex (if the
+ *                     wait does not time out at that reading: once the thread is at rest)
  *            Z only:  h<th>:A<sec>.<nsec>:<cb>  set whose caller is held between the unlock and the
  *                     return (inside pthread_cond_signal);   r<th>  release it and report what it returned
  *   result tokens, in order of occurrence, `|` after every op:
@@ -190,6 +193,10 @@ static int parse_case(char *line, char *mode) {
         } else if (tok[0] == 's' || tok[0] == 'c' || tok[0] == 'h') {
             o->th = strtol(tok + 1, &c, 10); if (*c != ':' || o->th < 0 || o->th >= nth) return -1;
             if (parse_hop(c + 1, &o->h) < 0) return -1;
+        } else if (tok[0] == 'x') {
+            o->th = strtol(tok + 1, &c, 10); if (*c != ':' || o->th < 0 || o->th >= nth) return -1;
+            o->ts.tv_sec = strtol(c + 1, &c, 10); if (*c != '.') return -1; o->ts.tv_nsec = strtol(c + 1, &c, 10);
+            if (*c != ':' || parse_hop(c + 1, &o->h) < 0 || (o->h.kind != 'K' && o->h.kind != 'X')) return -1;
         } else if (tok[0] == 'r') {
             o->th = atoi(tok + 1); if (o->th < 0 || o->th >= nth) return -1;
         } else return -1;
@@ -228,6 +235,24 @@ static void run_case(char mode) {
             else if (o->kind == 's' || o->kind == 'c') {
                 post(o->th, o);
                 if (wait_done(o->th, 3000) < 0) { flush_events(); printf("!op %d blocked (deadlock) ", i); bad = 1; break; }
+            } else if (o->kind == 'x') {         /* cancel between the wait's time-out and its re-lock */
+                struct timespec lim, rt; int parked = 0;
+                pthread_mutex_lock(&hm); timeout_hook_armed = 1; pthread_mutex_unlock(&hm);
+                set_clock(&o->ts);
+                real_deadline(&lim, 3000);
+                pthread_mutex_lock(&hm);
+                for (;;) {
+                    if (timeout_parked) { parked = 1; break; }
+                    if (t_waiting && !wake_pending && !(t_timed && ts_le(&t_deadline, &vnow))) break;
+                    __real_clock_gettime(CLOCK_REALTIME, &rt); if (ts_le(&lim, &rt)) { parked = -1; break; }
+                    real_deadline(&rt, 5); __real_pthread_cond_timedwait(&hcv, &hm, &rt);
+                }
+                timeout_hook_armed = 0;
+                pthread_mutex_unlock(&hm);
+                if (parked < 0) { flush_events(); printf("!timer thread neither timed out nor at rest at op %d ", i); bad = 1; break; }
+                post(o->th, o);
+                if (wait_done(o->th, 3000) < 0) { flush_events(); printf("!op %d blocked (deadlock) ", i); bad = 1; break; }
+                if (parked) { pthread_mutex_lock(&hm); timeout_release = 1; pthread_cond_broadcast(&hcv); pthread_mutex_unlock(&hm); }
             } else if (o->kind == 'h') {         /* set, caller parked inside pthread_cond_signal */
                 pthread_mutex_lock(&hm); hold_next_signal = 1; pthread_mutex_unlock(&hm);
                 post(o->th, o);
